@@ -356,6 +356,13 @@ def match_known(known, ev):
 # ---------------------------------------------------------------------------
 # verdicts, replay files, evidence
 
+def _silent_remove(p):
+    try:
+        os.remove(p)
+    except OSError:
+        pass
+
+
 def strip_h(x):
     if isinstance(x, dict):
         return {k: strip_h(v) for k, v in x.items() if k != "h"}
@@ -408,6 +415,21 @@ class Check:
         res = judge(module, files, par=par, prop=self.prop, xmx=xmx, mode=mode)
         if res["n"] != stats["events"]:
             raise Machinery("judge saw %d events, driver wrote %d" % (res["n"], stats["events"]))
+        if res["bad"] and not guarded and os.environ.get("VERIF_NO_CONFIRM") != "1":
+            # before anything is reported the failing run is repeated in a fresh process: only divergences
+            # that show up again (same abstract event) are reported; none => the machinery is at fault
+            sig = lambda e: json.dumps({k: v for k, v in strip_h(e).items() if k not in ("b", "i")}, sort_keys=True)
+            first = {sig(ev) for (_, _, ev) in res["bad"]}
+            for f in files:
+                _silent_remove(f)
+            stats2, _ = harness(hargs, race=race, env=env, timeout=timeout)
+            res2 = judge(module, stats2["files"], par=par, prop=self.prop, xmx=xmx, mode=mode)
+            again = [(f, i, ev) for (f, i, ev) in res2["bad"] if sig(ev) in first]
+            log("[confirm] %d of %d divergent events reproduced in a fresh process" % (len(again), len(res2["bad"])))
+            if not again and not res2["bad"]:
+                raise Machinery("%d divergent events did not reproduce in a fresh process" % len(res["bad"]))
+            res["bad"] = again if again else res2["bad"]
+            files = stats2["files"]
         self.add_stats(stats)
         self.judged.append(dict(module=module, events=res["n"], states=res["states"], driver=" ".join(str(a) for a in hargs)))
         allk = {k["id"]: k for k in (json.load(open(os.path.join(VERIF, "known_findings.json")))
